@@ -7,6 +7,7 @@ package c05
 
 import (
 	"encoding/json"
+	"math"
 	"fmt"
 	"io"
 	"net/http"
@@ -215,6 +216,21 @@ func build(r Round) *flamego.Flame {
 		yield()
 		panic("boom " + c.Param("why"))
 	})
+	// a value the encoder refuses (whatever the renderer answers then, it
+	// answers every such request alike) and a value whose encoding takes a while
+	f.Get("/renderbad/{what}", func(r flamego.Render) {
+		r.JSON(http.StatusOK, map[string]interface{}{"nan": math.NaN()})
+	})
+	f.Get("/renderslow/{what}", func(c flamego.Context, r flamego.Render, t *token) {
+		r.JSON(http.StatusOK, slowJSON{c.Param("what") + "|" + t.v, yield})
+	})
+	// a handler that answers through two return values, with a function that
+	// runs (and dawdles) before the status goes out
+	f.Get("/pair/{x}", func(c flamego.Context, t *token) (int, string) {
+		c.ResponseWriter().Before(func(flamego.ResponseWriter) { yield() })
+		yield()
+		return http.StatusCreated, "pair|" + c.Param("x") + "|token=" + t.v
+	})
 	// a handler that reads the request body, does something else and then uses
 	// what it read
 	f.Post("/echo/{x}", func(c flamego.Context, t *token) string {
@@ -228,6 +244,19 @@ func build(r Round) *flamego.Flame {
 		return "notfound|token=" + t.v
 	})
 	return f
+}
+
+// slowJSON encodes to its text, taking its time.
+type slowJSON struct {
+	text  string
+	yield func()
+}
+
+func (s slowJSON) MarshalJSON() ([]byte, error) {
+	s.yield()
+	b, err := json.Marshal(s.text)
+	s.yield()
+	return b, err
 }
 
 // ownLogs: token -> what was written to the logger that request brought along.
@@ -435,7 +464,7 @@ var seg = []string{"a", "bob", "x.y", "12", "%41", "main.go", "src", "lib", "dee
 func genReq(t *rapid.T, n int) Req {
 	s := func() string { return seg[rapid.IntRange(0, len(seg)-1).Draw(t, "seg")] }
 	q := Req{M: "GET", Token: fmt.Sprintf("tok-%d", n)}
-	switch rapid.IntRange(0, 19).Draw(t, "rk") {
+	switch rapid.IntRange(0, 21).Draw(t, "rk") {
 	case 0:
 		q.P = "/"
 	case 1:
@@ -476,6 +505,10 @@ func genReq(t *rapid.T, n int) Req {
 	case 19:
 		q.P = "/echo/" + s()
 		q.M = "POST"
+	case 20:
+		q.P = []string{"/renderbad/", "/renderslow/", "/renderslow/"}[rapid.IntRange(0, 2).Draw(t, "rb")] + s()
+	case 21:
+		q.P = "/pair/" + s()
 	case 12:
 		q.P = "/nosuch/" + s()
 	case 18:
